@@ -845,7 +845,13 @@ def rewrite_macros(toks):
                     cond = T("(", like) + args[0] + T(") %s (" % op, like) + args[1] + T(")", like)
                 else:
                     cond = args[0]
-                new = T("{ let vf_dbg: bool = ", like) + cond + T("; assert(vf_dbg); }", like)
+                nx = sidx(toks, c + 1)
+                if nx < len(toks) and is_p(toks[nx], ";"):
+                    # statement position: two plain statements (a bare block right after a loop body
+                    # trips Verus' parser)
+                    new = T("let vf_dbg: bool = ", like) + cond + T("; assert(vf_dbg)", like)
+                else:
+                    new = T("{ let vf_dbg: bool = ", like) + cond + T("; assert(vf_dbg); }", like)
             toks[s:c + 1] = [t for t in new if t.k != "mark"] + marks
             changed = True
             break
